@@ -91,7 +91,7 @@ impl Prop for C15 {
     }
 
     fn stages(&self, tier: Tier) -> Vec<Stage<FileSpec>> {
-        vec![stage("files", cut_case(tier), tier.pick(2500, 80_000)).shrink(800)]
+        vec![stage("files", cut_case(tier), tier.pick(10_000, 150_000)).shrink(800)]
     }
 
     fn rule(&self) -> String {
